@@ -77,6 +77,7 @@ func pClone(in []*pState) []*pState {
 }
 
 type parseInterp struct {
+	kindEnv []map[types.Object][]int
 	c        *Ctx
 	pk       *packagesPackage
 	info     *types.Info
@@ -95,15 +96,22 @@ type parseInterp struct {
 }
 
 type pFrame struct {
-	fd   *ast.FuncDecl
-	rets []*pState
+	fd      *ast.FuncDecl
+	rets    []*pState
+	retVals []pRet // per return statement with a single result: the states and the returned expression
+}
+
+type pRet struct {
+	states []*pState
+	expr   ast.Expr
 }
 
 type pFlow struct {
 	next, brk, cont []*pState
 }
 
-func ruleParser(c *Ctx) {
+// newParseInterp: the interpreter with the token kinds and the parser's methods loaded.
+func newParseInterp(c *Ctx) *parseInterp {
 	pk := c.P.ByRel["internal/parser"]
 	pi := &parseInterp{c: c, pk: pk, info: pk.TypesInfo, methods: map[string]*ast.FuncDecl{}, kinds: map[string]int{}, reported: map[string]bool{}, nLoops: map[token.Pos]bool{}}
 	// token kinds
@@ -116,7 +124,6 @@ func ruleParser(c *Ctx) {
 			}
 		}
 	}
-	c.census("P-PROGRESS", "token kinds", len(pi.kinds), 10)
 	for _, f := range pk.Syntax {
 		for _, d := range f.Decls {
 			if fd, ok := d.(*ast.FuncDecl); ok && fd.Body != nil && recvTypeName(fd) == "Parser" {
@@ -124,6 +131,12 @@ func ruleParser(c *Ctx) {
 			}
 		}
 	}
+	return pi
+}
+
+func ruleParser(c *Ctx) {
+	pi := newParseInterp(c)
+	c.census("P-PROGRESS", "token kinds", len(pi.kinds), 10)
 	pi.findAnchors()
 	if len(pi.skipFns) == 0 || pi.topFn == "" {
 		var sk []string
@@ -144,7 +157,7 @@ func ruleParser(c *Ctx) {
 }
 
 // readsCurrent: the expression reads the kind of the current token, directly or through pure boolean methods.
-func (pi *parseInterp) readsCurrent(e ast.Expr, depth int) bool {
+func (pi *parseInterp) readsCurrent(e ast.Node, depth int) bool {
 	found := false
 	ast.Inspect(e, func(x ast.Node) bool {
 		switch n := x.(type) {
@@ -154,14 +167,9 @@ func (pi *parseInterp) readsCurrent(e ast.Expr, depth int) bool {
 			}
 		case *ast.CallExpr:
 			if m, ok := pi.methodCall(n); ok && depth < 3 {
-				for _, st := range pi.methods[m].Body.List {
-					if r, ok := st.(*ast.ReturnStmt); ok {
-						for _, res := range r.Results {
-							if pi.readsCurrent(res, depth+1) {
-								found = true
-							}
-						}
-					}
+				// anywhere in the method (a membership helper compares in a loop over its arguments)
+				if pi.readsCurrent(pi.methods[m].Body, depth+1) {
+					found = true
 				}
 			}
 		}
@@ -207,6 +215,40 @@ func (pi *parseInterp) findAnchors() {
 		})
 		if direct && !calls {
 			fetches[n] = true
+		}
+	}
+	// conditional fetches (`accept(kind)`): loop-free methods whose only mutation is a call of a fetch method
+	for changed := true; changed; {
+		changed = false
+		for _, n := range names {
+			if fetches[n] {
+				continue
+			}
+			fd := pi.methods[n]
+			if !pi.mutates(fd.Body, 0) {
+				continue
+			}
+			only, loops, direct := true, false, false
+			ast.Inspect(fd.Body, func(x ast.Node) bool {
+				switch s := x.(type) {
+				case *ast.ForStmt, *ast.RangeStmt:
+					loops = true
+				case *ast.AssignStmt:
+					if pi.isTokenFetch(s) {
+						direct = true
+					}
+				case *ast.CallExpr:
+					if m, ok := pi.methodCall(s); ok && pi.mutates(pi.methods[m].Body, 0) && !fetches[m] {
+						only = false
+					}
+				}
+				return true
+			})
+			if only && !loops && !direct {
+				// every other mutation must be absent: the method's own statements do not assign parser state
+				fetches[n] = true
+				changed = true
+			}
 		}
 	}
 	pi.quiet = true
@@ -313,8 +355,111 @@ func (pi *parseInterp) kindOf(e ast.Expr) (int, bool) {
 		if k, ok := pi.kinds[id.Name]; ok {
 			return k, true
 		}
+		// a parameter (or loop variable) bound to a token kind by the call being interpreted
+		if ks, ok := pi.boundKinds(pi.info.Uses[id]); ok && len(ks) == 1 {
+			return ks[0], true
+		}
 	}
 	return 0, false
+}
+
+func (pi *parseInterp) boundKinds(o types.Object) ([]int, bool) {
+	if o == nil {
+		return nil, false
+	}
+	for i := len(pi.kindEnv) - 1; i >= 0; i-- {
+		if ks, ok := pi.kindEnv[i][o]; ok {
+			return ks, true
+		}
+		break // only the innermost activation: parameters are not visible across calls
+	}
+	return nil, false
+}
+
+// bindKinds: the token kinds passed for the callee's parameters at this call (constants, or parameters of the
+// caller that are themselves bound); a variadic parameter is bound to the list of its arguments.
+func (pi *parseInterp) bindKinds(fd *ast.FuncDecl, call *ast.CallExpr) map[types.Object][]int {
+	env := map[types.Object][]int{}
+	if fd.Type.Params == nil {
+		return env
+	}
+	i := 0
+	for _, fl := range fd.Type.Params.List {
+		_, variadic := fl.Type.(*ast.Ellipsis)
+		for _, n := range fl.Names {
+			o := pi.info.Defs[n]
+			if variadic {
+				var ks []int
+				all := true
+				for _, a := range call.Args[min(i, len(call.Args)):] {
+					if k, ok := pi.kindOf(a); ok {
+						ks = append(ks, k)
+					} else {
+						all = false
+					}
+				}
+				if all && !call.Ellipsis.IsValid() {
+					env[o] = ks
+				}
+			} else if i < len(call.Args) {
+				if k, ok := pi.kindOf(call.Args[i]); ok {
+					env[o] = []int{k}
+				}
+			}
+			i++
+		}
+	}
+	return env
+}
+
+// callBool interprets a parser method that returns one boolean in condition position: the states in which it
+// returns true and those in which it returns false (token consumption inside the method included, so
+// `if p.accept(K)` enters its body behind the consumed token).
+func (pi *parseInterp) callBool(m string, call *ast.CallExpr, in []*pState, fr *pFrame) (t, f []*pState, ok bool) {
+	fd := pi.methods[m]
+	if fd.Type.Results == nil || len(fd.Type.Results.List) != 1 || len(pi.stack) > 12 {
+		return nil, nil, false
+	}
+	if b, isB := pi.info.TypeOf(fd.Type.Results.List[0].Type).Underlying().(*types.Basic); !isB || b.Kind() != types.Bool {
+		return nil, nil, false
+	}
+	for _, g := range pi.stack {
+		if g == m {
+			return nil, nil, false
+		}
+	}
+	env := pi.bindKinds(fd, call)
+	pi.kindEnv = append(pi.kindEnv, env)
+	pi.stack = append(pi.stack, m)
+	sub := &pFrame{fd: fd}
+	pi.block(fd.Body.List, pClone(in), sub)
+	for _, rv := range sub.retVals {
+		switch id := ast.Unparen(rv.expr).(type) {
+		case *ast.Ident:
+			if id.Name == "true" {
+				t = append(t, rv.states...)
+				continue
+			}
+			if id.Name == "false" {
+				f = append(f, rv.states...)
+				continue
+			}
+		}
+		tt, ff := pi.cond(rv.expr, rv.states, sub)
+		t, f = append(t, tt...), append(f, ff...)
+	}
+	pi.stack = pi.stack[:len(pi.stack)-1]
+	pi.kindEnv = pi.kindEnv[:len(pi.kindEnv)-1]
+	d := 0
+	if len(in) > 0 {
+		d = len(in[0].adv)
+	}
+	for _, o := range append(append([]*pState{}, t...), f...) {
+		if len(o.adv) > d {
+			o.adv = o.adv[:d]
+		}
+	}
+	return pNormalize(t), pNormalize(f), true
 }
 
 func (pi *parseInterp) methodCall(call *ast.CallExpr) (string, bool) {
@@ -451,8 +596,13 @@ func (pi *parseInterp) cond(e ast.Expr, in []*pState, fr *pFrame) (t, f []*pStat
 			}
 		}
 	}
-	// a pure boolean method of the parser that returns one expression: the condition is that expression
+	// a boolean method of the parser (a test of the current token, or a conditional consumption): interpreted
 	if call, ok := e.(*ast.CallExpr); ok {
+		if m, ok := pi.methodCall(call); ok {
+			if t, f, ok := pi.callBool(m, call, in, fr); ok {
+				return t, f
+			}
+		}
 		if m, ok := pi.methodCall(call); ok && !pi.mutates(pi.methods[m].Body, 0) {
 			if body := pi.methods[m].Body.List; len(body) == 1 {
 				if r, ok := body[0].(*ast.ReturnStmt); ok && len(r.Results) == 1 {
@@ -694,6 +844,24 @@ func (pi *parseInterp) stmt(st ast.Stmt, in []*pState, fr *pFrame) pFlow {
 		}
 		fl.next = pNormalize(out)
 	case *ast.RangeStmt:
+		// a loop over the token kinds passed to a variadic parameter: unrolled
+		if id, ok := ast.Unparen(s.X).(*ast.Ident); ok && len(pi.kindEnv) > 0 {
+			if ks, ok := pi.boundKinds(pi.info.Uses[id]); ok && s.Value != nil {
+				cur := in
+				var brk []*pState
+				vo := pi.info.Defs[identOf(s.Value)]
+				env := pi.kindEnv[len(pi.kindEnv)-1]
+				for _, k := range ks {
+					env[vo] = []int{k}
+					sub := pi.block(s.Body.List, cur, fr)
+					cur = pNormalize(append(sub.next, sub.cont...))
+					brk = append(brk, sub.brk...)
+				}
+				delete(env, vo)
+				fl.next = pNormalize(append(cur, brk...))
+				return fl
+			}
+		}
 		if pi.mutates(s.Body, 0) {
 			pi.undecided(fr, s, "range loop that consumes tokens")
 		}
@@ -713,6 +881,9 @@ func (pi *parseInterp) stmt(st ast.Stmt, in []*pState, fr *pFrame) pFlow {
 			cur = pi.expr(r, cur, fr)
 		}
 		fr.rets = append(fr.rets, pClone(cur)...)
+		if len(s.Results) == 1 {
+			fr.retVals = append(fr.retVals, pRet{pClone(in), s.Results[0]})
+		}
 	default:
 		if pi.mutates(st, 0) {
 			pi.undecided(fr, st, "statement form")
@@ -824,8 +995,10 @@ func (pi *parseInterp) call(m string, call *ast.CallExpr, in []*pState, fr *pFra
 		}
 	}
 	pi.stack = append(pi.stack, m)
+	pi.kindEnv = append(pi.kindEnv, pi.bindKinds(fd, call))
 	sub := &pFrame{fd: fd}
 	fl := pi.block(fd.Body.List, pClone(in), sub)
+	pi.kindEnv = pi.kindEnv[:len(pi.kindEnv)-1]
 	pi.stack = pi.stack[:len(pi.stack)-1]
 	// a return from inside a token loop leaves that loop: drop the progress flags of the callee's loops
 	d := 0
